@@ -7,6 +7,10 @@ package http2
 // naming a stream pushed only while it is open).
 
 import (
+	"time"
+	"sync/atomic"
+	"strings"
+	"runtime"
 	"encoding/json"
 	"fmt"
 	"math/rand"
@@ -73,7 +77,17 @@ func (r *vfC20Run) reset() {
 	r.emit(vfC20Ev{"op": "reset"})
 }
 
+// the call in progress (for the watchdog of TestVFC20): a scheduler call that never returns loses every frame behind it
+var vfC20Cur atomic.Pointer[vfC20Call]
+
+type vfC20Call struct {
+	op, kind string
+	since    time.Time
+}
+
 func (r *vfC20Run) guard(op string, f func()) (ok bool) {
+	vfC20Cur.Store(&vfC20Call{op, r.kind, time.Now()})
+	defer vfC20Cur.Store(nil)
 	defer func() {
 		if p := recover(); p != nil {
 			r.panics++
@@ -461,6 +475,22 @@ func (r *vfC20Run) history(rng *rand.Rand, ids []uint32, steps int) {
 func TestVFC20(t *testing.T) {
 	res := &vfResult{Driver: "c20", Actions: map[string]int{}, Extra: map[string]any{}}
 	defer res.write()
+	go func() { // watchdog: every call of the interface is a handful of pointer operations
+		for {
+			time.Sleep(time.Second)
+			if c := vfC20Cur.Load(); c != nil && time.Since(c.since) > 20*time.Second {
+				buf := make([]byte, 1<<16)
+				buf = buf[:runtime.Stack(buf, true)]
+				if strings.Contains(string(buf), "pkg/http2/writesched") {
+					res.violate(map[string]any{"check": "C20", "kind": "hang", "during": c.op, "scheduler": c.kind},
+						fmt.Sprintf("%s scheduler: the call %s has not returned after 20 s (every frame queued behind it is lost)", c.kind, c.op), map[string]any{"stacks": string(buf[:min(len(buf), 6000)])})
+					res.Extra["runs"] = []map[string]any{}
+					res.write()
+					os.Exit(0)
+				}
+			}
+		}
+	}()
 	seed := int64(vfEnvInt("VERIF_SEED", 1))
 	histories := vfEnvInt("VF_HISTORIES", 60)
 	steps := vfEnvInt("VF_STEPS", 45)
